@@ -35,7 +35,7 @@ def norm_case(ctx, rec):
             except Exception as e:
                 ctx.violation("norm.raises", "mode=%s type=%s" % (rec["mode"], tname), "%s for %s: %s" % (type(e).__name__, d, e), rec)
                 continue
-        ok = set(got) == set(d)
+        ok = isinstance(got, dict) and set(got) == set(d)
         if ok:
             for nm, w in zip(names, want):
                 g = got[nm]
@@ -55,7 +55,16 @@ def norm_case(ctx, rec):
         ex._importance_trackers.update({nm: np.float64(v) * unit for nm, v in zip(names, vals)})
         with warnings.catch_warnings():
             warnings.simplefilter("ignore")
-            got = ex.get_normalized_importance_values(mode=rec["mode"])
+            try:
+                got = ex.get_normalized_importance_values(mode=rec["mode"])
+            except Exception as e:
+                got = "%s: %s" % (type(e).__name__, str(e)[:120])
+        if not isinstance(got, dict) or any(nm not in got for nm in names):
+            ctx.count_clause("norm.method")
+            ctx.violation("norm.method", "mode=%s zero_normaliser=%s unit=%g" % (rec["mode"], rec["factor"] == 0, unit),
+                          "get_normalized_importance_values(%s) on tracked values %s gave %r instead of a dict over the feature names" % (
+                              rec["mode"], vals, got), rec)
+            continue
         bad = [nm for nm, w in zip(names, want) if not math.isfinite(float(got[nm])) or abs(float(got[nm]) - float(w)) > 1e-9 * (1 + abs(float(w)))]
         ctx.count_clause("norm.method")
         if bad:
@@ -85,6 +94,10 @@ def bound_case(ctx, rec):
             ctx.violation("bound.raises", "alpha=%s" % alpha, "%s: %s" % (type(e).__name__, e), rec)
             return
         ctx.count_clause("bound.formula")
+        if not isinstance(got, dict) or any(nm not in got for nm in names):
+            ctx.violation("bound.formula", "alpha=%s t=%s" % (alpha, t), "get_confidence_bound(%g) returned %r instead of a dict over the "
+                          "feature names" % (delta, got), rec)
+            return
         for nm in names:
             g = float(got[nm])
             resid = g - float(qpair(rec["decay"]))
@@ -123,6 +136,9 @@ def reachable_states(ctx, rng, quick):
                 continue
             n += 1
             vs = ex.variances
+            if not isinstance(vs, dict):
+                ctx.violation("variance.non_negative", E._config_key(sc), "variances is %r, not a dict of numbers" % (vs,), {"scenario": sc.to_json()})
+                break
             if any(not (float(v) >= 0 and math.isfinite(float(v))) for v in vs.values()):
                 ctx.violation("variance.non_negative", E._config_key(sc), "variances %s" % vs, {"scenario": sc.to_json()})
                 break
@@ -130,6 +146,10 @@ def reachable_states(ctx, rng, quick):
             prev = None
             for delta in (1e-3, 1e-2, 0.1, 0.5, 1.0):
                 got = ex.get_confidence_bound(delta)
+                if not isinstance(got, dict) or any(nm not in got for nm in env["names"]):
+                    ctx.violation("bound.on_reachable_state", E._config_key(sc), "get_confidence_bound(%g) returned %r instead of a dict "
+                                  "over the feature names" % (delta, got), {"scenario": sc.to_json()})
+                    return n
                 for nm in env["names"]:
                     want = (1 - a) ** ex.seen_samples + math.sqrt(float(vs[nm]) * a / ((2 - a) * delta))
                     g = float(got[nm])
